@@ -1211,7 +1211,7 @@ func (c *child) opTable() []opDef {
 			defer cancel()
 			c.call(g, "Replica.Sync", m.name, func() error { return d.Replica.Sync(ctx) })
 		})},
-		{"SyncAndWait", 4, onOpen("SyncAndWait", func(g *gctx, m *mainDB, d *litestream.DB) {
+		{"SyncAndWait", 7, onOpen("SyncAndWait", func(g *gctx, m *mainDB, d *litestream.DB) {
 			ctx, cancel := ctxT(t5)
 			defer cancel()
 			c.ackCall(g, "SyncAndWait", m, func() error { return d.SyncAndWait(ctx) })
